@@ -85,6 +85,10 @@ pub struct Case {
 
 pub fn shader_for(ch: &mut Ch, large: bool) -> String {
     let mut p = Profile::base();
+    p.overrides = 3;
+    p.wg_override = 4;
+    p.ov_sized_array = 3;
+    p.struct_helpers = 2;
     p.nonascii = 0;
     if large {
         p.host_structs = (10, 14);
